@@ -15,6 +15,7 @@ pub struct LGen<'c> {
     prog: Program,
     next: u32,
     allow_str: bool,
+    pub allow_lists: bool,
 }
 
 const SCALARS: [Ty; 13] = [
@@ -39,7 +40,7 @@ fn short(t: &Ty) -> String {
 
 impl<'c> LGen<'c> {
     pub fn new(stream: &'c [u8], allow_str: bool) -> Self {
-        LGen { c: Choices::new(stream), prog: Program::default(), next: 0, allow_str }
+        LGen { c: Choices::new(stream), prog: Program::default(), next: 0, allow_str, allow_lists: true }
     }
 
     fn fresh(&mut self, p: &str) -> String {
@@ -346,7 +347,7 @@ impl<'c> LGen<'c> {
                     stmts.push(Stmt::Let(z.clone(), Some(t.clone()), e));
                     self.dump(Expr::Var(z), &t, &mut stmts);
                 }
-                6 => {
+                6 if self.allow_lists => {
                     let l = self.fresh("l");
                     let lt = Ty::list(t.clone());
                     stmts.push(Stmt::Let(l.clone(), Some(lt), Expr::List(vec![Expr::Var("v".into()), Expr::Var("v2".into()), Expr::Var("w".into())])));
